@@ -271,8 +271,11 @@ int yr_parser_emit_pushes_for_rules(
 
   for (uint32_t i = 0; i <= compiler->current_rule_idx; i++)
   {
-    // Is rule->identifier prefixed by prefix?
-    if (strncmp(prefix, rule->identifier, strlen(prefix)) == 0)
+    // Is rule->identifier prefixed by prefix? Rules from other namespaces are
+    // skipped, a rule with the same identifier in another namespace would
+    // make the rule from the current namespace to be pushed twice.
+    if (rule->ns->idx == ns->idx &&
+        strncmp(prefix, rule->identifier, strlen(prefix)) == 0)
     {
       uint32_t rule_idx = yr_hash_table_lookup_uint32(
           compiler->rules_table, rule->identifier, ns->name);
